@@ -118,7 +118,7 @@ def _run_cli(spec, root, batch, opts, dry, extra=None, prompt="-y"):
     sys.argv = args + [path]
     try:
         try:
-            with contextlib.redirect_stdout(io.StringIO()):
+            with contextlib.redirect_stdout(io.StringIO()), contextlib.redirect_stderr(io.StringIO()):
                 mmod.main()
         except SystemExit:
             pass
